@@ -4,6 +4,8 @@ usage: mutate.py <mutant id|all> [--props C01,C02] [--tests]"""
 import argparse, json, os, subprocess, sys
 V = os.path.dirname(os.path.dirname(os.path.abspath(__file__)))
 REPO = os.environ.get("VERIF_REPO", "/repo")
+# evidence/replays of mutant runs never land in /verif/evidence
+OUT = os.environ.setdefault("VERIF_SELFVAL_OUT", "/tmp/verif-selfval-out")
 
 def sh(cmd, **kw):
     return subprocess.run(cmd, shell=True, capture_output=True, text=True, **kw)
